@@ -14,7 +14,7 @@ MIN_OBLIGATIONS = 500
 EXPLANATION = ("SPACES AND COMMENTS, ANY AMOUNT: the real Scanner.scan is executed on statement texts in which every gap where the statement allows white space "
                "(indentation incl. blank lines, after the mnemonic / size suffix, inside brackets, around operators and commas, trailing) holds a run of SYMBOLIC length, "
                "and `;` / `/* */` comments hold ANY text: the token list (types and texts) is proved to be the one of the densely written statement (+ a COMMENT token the "
-               "parser is proved to drop).  24 statement forms (21 with spaces / comments, 3 in any letter case): 7 operand shapes, size suffix, implied, data directive, label, assignment, *=, two statements with blank "
+               "parser is proved to drop).  25 statement forms (21 with spaces / comments, 4 in any letter case): 7 operand shapes, size suffix, implied, data directive, label, assignment, *=, two statements with blank "
                "lines, end-of-line / full-line / after-operand `;` comments, block comment.  Scanner loops are cut at quantified invariants (every position consumed so far "
                "matches), the driver and lex_expression loops are unrolled.  Single-run facts proved on the real code: parse_opcode lower-cases the size suffix and the index registers (outer and inside the "
                "parentheses) for token values in EITHER case (symbolic letters) and the addressing mode does not depend on the case; OpcodeNode "
@@ -22,7 +22,7 @@ EXPLANATION = ("SPACES AND COMMENTS, ANY AMOUNT: the real Scanner.scan is execut
                "whitespace runs and both comment forms are skipped by the scanner with correct bookkeeping (C15/C17 contracts).  That ANY composition of "
                "the listed presentation changes leaves bytes, offsets and symbols unchanged is the bounded metamorphic part, through the real pipeline.")
 TRUSTED = ["the scanner contracts of C15/C17 (whitespace / comment skipping)"]
-ASSUMPTIONS = ["the space/comment obligations are stated per statement FORM (24 forms with fixed literal operands); that other operands / mnemonics behave alike is covered by the "
+ASSUMPTIONS = ["the space/comment obligations are stated per statement FORM (25 forms with fixed literal operands); that other operands / mnemonics behave alike is covered by the "
                "bounded re-layout sweep; block-comment text is any text in which no `*/` starts",
                "composition of single-run facts to full layout independence is argued, not machine-checked",
                "bounded: every listed presentation change applied at every applicable position of generated programs and sample sources, outputs and symbols compared"]
@@ -104,13 +104,15 @@ SPACED = {
 }
 
 
-# NOTE: no gap between the inner index register and the closing parenthesis of (sr,s),y: that position is not in the statement's list, and the
-# scanner does treat `(0xab,s ),y` differently (the `,y` is then lexed as COMMA IDENTIFIER and the statement is rejected) -- observed, not claimed.
+# NOTE: the gap between the inner index register and the closing parenthesis of (sr,s),y was first left out of these forms: the scanner used to reject
+# `(0xab,s ),y`.  Two independent sub-agents flagged it as a defect of the unchanged tree; it is repaired (fix: 2253154) and the gap is part of the forms now.
 CASED = {
     "LDA.W 0x1F,X in any letter case": (["_n", "^lda", ".", "^w", "_", "0x", "^1f", "_", ",", "_", "^x", "_t"],
                                         [("OPCODE", "lda"), ("OPCODE_SIZE", "w"), ("NUMBER", "0x1f"), ("ADDRESSING_MODE_INDEX", "x")]),
-    "STA (0xAB,S),Y in any letter case": (["_n", "^sta", "__", "(", "_", "0x", "^ab", "_", ",", "_", "^s", ")", "_", ",", "_", "^y", "_t"],
+    "STA (0xAB,S),Y in any letter case": (["_n", "^sta", "__", "(", "_", "0x", "^ab", "_", ",", "_", "^s", "_", ")", "_", ",", "_", "^y", "_t"],
                                           [("OPCODE", "sta"), ("LPAREN", "("), ("NUMBER", "0xab"), ("ADDRESSING_MODE_INDEX", "s"), ("RPAREN", ")"), ("ADDRESSING_MODE_INDEX", "y")]),
+    "LDA.B (0x10,S),Y in any letter case": (["_n", "^lda", ".", "^b", "_", "(", "_", "0x10", "_", ",", "_", "^s", "_", ")", "_", ",", "_", "^y", "_t"],
+                                            [("OPCODE", "lda"), ("OPCODE_SIZE", "b"), ("LPAREN", "("), ("NUMBER", "0x10"), ("ADDRESSING_MODE_INDEX", "s"), ("RPAREN", ")"), ("ADDRESSING_MODE_INDEX", "y")]),
     "RTS in any letter case": (["_n", "^rts", "_t"], [("OPCODE_NAKED", "rts")]),
 }
 
